@@ -11,6 +11,7 @@ import Tahoe.BackupDb.LemmasSession
     | … and timestamps are trusted | same theorems: `useTs = true` is part of the conclusion |
     | (mechanism) the cap found for a path is the one that was uploaded: fileid allocation | `fileid_of_cap_unique` (same cap ⇒ same fileid), `fileid_determines_cap` (different caps ⇒ different fileids), `alloc_stable_along_history` (a cap keeps its fileid whatever is inserted later, in any table), `alloc_independent_of_other_tables` (seeded change C42-b) |
     | a directory cap is reused only for exactly the same name-to-cap contents | `dir_reuse_only_same_contents`, `dir_reuse_witness`, `session_dir_reuse_only_same_contents` under the explicit hypothesis that the directory hash is injective; the encoding part without hypothesis: `dir_encoding_injective` (+ `dir_encoding_canonical`) |
+    | backup *runs* (ordinary and `--ignore-timestamps`) | `toolFileStep`/`toolDirStep` (Session.lean) are the per-file / per-directory steps of a run; `ignore_timestamps_run_records_new_cap` (an --ignore-timestamps run records what it uploads: seeded change C42-e), `tool_file_step_reuse_sound` |
     | (not in the statement) when a check of the stored cap is requested | `no_check_within_a_month`, `always_check_after_two_months` |
 
     Not covered by a theorem (correspondence only): SQLite itself (tables are finite maps), `abspath_expanduser_unicode`,
@@ -240,6 +241,57 @@ example :
     (checkFile s.db [2] ⟨9, 8, 6⟩ true 200 0).2.wasUploaded = none
       ∧ (checkFile s.db [2] ⟨7, 5, 6⟩ true 200 0).2.wasUploaded = some [1]
       ∧ s.fres.length = 2 := by decide
+
+/-! ### run level: one file of one `tahoe backup` run (`BackerUpper.upload`) -/
+
+/-- An `--ignore-timestamps` run uploads the file and *records* the upload: whatever the database said before
+    (a stale row for the same size/mtime/ctime included), after the step the row for the path is the new cap — the
+    next ordinary run that sees the same stat reuses the new cap, not an older one (seeded change C42-e). -/
+theorem ignore_timestamps_run_records_new_cap (H : Bytes → K) (sops : List SOp) (path : Bytes) (st : Stat)
+    (newcap : Bytes) (healthy : Bool) (now : Int) (rnd : Nat) (now' : Int) (rnd' : Nat) :
+    let res := toolFileStep H (srun H sops) path st true newcap healthy now rnd
+    res.2.1 = true ∧ res.2.2 = newcap
+      ∧ (checkFile res.1.db path st true now' rnd').2.filecap = some newcap := by
+  obtain ⟨hdb, _⟩ := sessInv_run H sops
+  obtain ⟨hok, _⟩ := fileInv_run H (srun H sops).trace.reverse
+  rw [← hdb] at hok
+  obtain ⟨h1, h2⟩ := sstep_check_fres H (srun H sops) path st false now rnd
+  have hn := checkFile_no_ts_none (srun H sops).db path st now rnd
+  obtain ⟨f1, f2, f3, f4⟩ := checkFile_result_fields (srun H sops).db path st false now rnd
+  obtain ⟨c1, c2⟩ := checkFile_caps (srun H sops).db path st false now rnd
+  simp only [toolFileStep, Bool.not_true, h1, FileResult.wasUploaded, hn]
+  refine ⟨by trivial, by trivial, ?_⟩
+  simp only [sstep, List.getElem?_concat_length, FileResult.didUpload, f1, f2, f3, f4]
+  exact checkFile_after_upload _ (by rw [c1, c2]; exact hok) newcap path st now now' rnd'
+
+/-- Whatever the flags, a run step that does *not* upload uses a cap only if timestamps are trusted and the stat it
+    saw equals the record of the most recent upload of that path, whose cap it is. -/
+theorem tool_file_step_reuse_sound (H : Bytes → K) (sops : List SOp) (path : Bytes) (st : Stat) (ignoreTs : Bool)
+    (newcap : Bytes) (healthy : Bool) (now : Int) (rnd : Nat)
+    (h : (toolFileStep H (srun H sops) path st ignoreTs newcap healthy now rnd).2.1 = false) :
+    ignoreTs = false ∧ lastUploadOf path (srun H sops).trace
+      = some (st.size, st.mtime, st.ctime, (toolFileStep H (srun H sops) path st ignoreTs newcap healthy now rnd).2.2) := by
+  obtain ⟨h1, _⟩ := sstep_check_fres H (srun H sops) path st (!ignoreTs) now rnd
+  simp only [toolFileStep, h1] at h ⊢
+  cases hw : (checkFile (srun H sops).db path st (!ignoreTs) now rnd).2.wasUploaded with
+  | none => simp [hw] at h
+  | some c =>
+    obtain ⟨ht, hl⟩ := session_reuse_only_if_unchanged H sops path st (!ignoreTs) now rnd c hw
+    have hi : ignoreTs = false := by cases ignoreTs <;> simp_all
+    simp only [hw] at h ⊢
+    refine ⟨hi, ?_⟩
+    by_cases hs : (checkFile (srun H sops).db path st (!ignoreTs) now rnd).2.shouldCheck = false
+    · simp only [hs, if_true]; exact hl
+    · by_cases hh : healthy = true
+      · simp only [hs, hh, if_true]; exact hl
+      · simp [hs, hh] at h
+
+example :
+    let s := srun (K := Bytes) id [SOp.check [2] ⟨7, 5, 6⟩ true 100 0, SOp.uploadVia 0 [65] 100]
+    -- ordinary run recorded capA=[65]; bytes change, stat does not; an --ignore-timestamps run uploads capB=[66] …
+    let r := toolFileStep id s [2] ⟨7, 5, 6⟩ true [66] true 200 0
+    -- … and the next ordinary run reuses capB
+    r.2.1 = true ∧ (toolFileStep id r.1 [2] ⟨7, 5, 6⟩ false [67] true 300 0).2 = (false, [66]) := by decide
 
 /-- no check is requested within `NO_CHECK_BEFORE` (30 days) of the last check, whatever `random()` says … -/
 theorem no_check_within_a_month (now lastChecked : Int) (rnd : Nat)
